@@ -49,6 +49,10 @@ def main(argv: list[str]) -> int:
             print(f"selftest-conformance: skipped ({type(e).__name__})")
         print("setup ok:", "odc.geo at", os.path.dirname(odc.geo.__file__), "dask", dask.__version__, "distributed", distributed.__version__, "numpy", numpy.__version__, "xarray", xarray.__version__, "rasterio", rasterio.__version__, "tifffile", tifffile.__version__, "pyproj", pyproj.__version__)
         return 0
+    if argv and argv[0] == "c19-peer":
+        from odcsim import c19
+
+        return c19.peer_main()
     if argv and argv[0].startswith("selftest"):
         from odcsim import selftest
 
